@@ -101,6 +101,8 @@ pub fn run(args: &Args) -> serde_json::Value {
     let mut n_swaps = 0u64;
     let mut n_probes = 0;
     let mut n_unequal_cutoffs = 0;
+    let mut n_indep = 0usize;
+    let mut n_indep_nontrivial = 0usize;
     let mut hist_rep = std::collections::BTreeMap::new();
     for li in 0..n_lad {
         let nrep = 2 + rng.below(7) as usize;
@@ -229,6 +231,88 @@ pub fn run(args: &Args) -> serde_json::Value {
             if li % 29 == 0 {
                 samples.push(json!({"replicas": nrep, "parallel": par, "betas": lad.betas, "cutoffs_before": before.iter().map(|s| s.2).collect::<Vec<_>>(),
                     "n_before": before.iter().map(|s| s.0.iter().flatten().count()).collect::<Vec<_>>(), "accepted": dswaps}));
+            }
+        }
+        // --- independence probe (C05 / C10): the exchanges attempted in one pairing phase are separate Metropolis
+        // tests, each with a uniform of its own.  The step is re-run from the present configurations on a scripted
+        // container tape: pairing order word 0, then uniforms alternating between 2^-52 ("accept unless the ratio is
+        // zero") and 1 - 2^-52 ("reject unless the ratio is >= 1").  Whatever way the implementation hands the drawn
+        // uniforms to the pairs of a phase, SOME assignment of distinct uniforms to pairs must reproduce its decisions.
+        if nrep >= 4 {
+            let before = snapshot(&tc);
+            let na = nrep / 2;
+            let nb = (nrep - 1) / 2;
+            let lo = 1u64 << 12;
+            let hi = u64::MAX;
+            let script: Vec<u64> = std::iter::once(0u64).chain((0..na + nb).map(|k| if k % 2 == 0 { lo } else { hi })).collect();
+            let to_u = |w: u64| (w >> 12) as f64 / 4503599627370496.0;
+            let mut c = tc.clone();
+            *c.rng_mut() = TapeRng::scripted(script.clone(), 7);
+            let r = catch_unwind(AssertUnwindSafe(|| if par { c.parallel_tempering_step() } else { c.tempering_step() }));
+            if r.is_ok() {
+                let after = snapshot(&c);
+                let perms = |n: usize| -> Vec<Vec<usize>> {
+                    let mut out = vec![vec![]];
+                    for _ in 0..n {
+                        let mut next = vec![];
+                        for p in out.iter() {
+                            for x in 0..n {
+                                if !p.contains(&x) {
+                                    let mut q = p.clone();
+                                    q.push(x);
+                                    next.push(q);
+                                }
+                            }
+                        }
+                        out = next;
+                    }
+                    out
+                };
+                let ua: Vec<f64> = script[1..1 + na].iter().map(|w| to_u(*w)).collect();
+                let ub: Vec<f64> = script[1 + na..].iter().map(|w| to_u(*w)).collect();
+                let mut explained = false;
+                let mut outcomes = std::collections::HashSet::new();
+                for pa in perms(na) {
+                    for pb in perms(nb) {
+                        let mut cur: Vec<(Slots, Vec<bool>)> = before.iter().map(|s| (s.0.clone(), s.1.clone())).collect();
+                        let mut undecided = false;
+                        for (k, ui) in pa.iter().enumerate() {
+                            let (i, j) = (2 * k, 2 * k + 1);
+                            let ratio = log_weight_ratio(&lad.specs[i], lad.betas[i], &cur[i].0, &lad.specs[j], lad.betas[j], &cur[j].0);
+                            let ratio = if ratio.is_nan() { 0.0 } else { ratio };
+                            undecided |= (ratio - ua[*ui]).abs() < 1e-7;
+                            if ratio > ua[*ui] {
+                                cur.swap(i, j);
+                            }
+                        }
+                        for (k, ui) in pb.iter().enumerate() {
+                            let (i, j) = (2 * k + 1, 2 * k + 2);
+                            let ratio = log_weight_ratio(&lad.specs[i], lad.betas[i], &cur[i].0, &lad.specs[j], lad.betas[j], &cur[j].0);
+                            let ratio = if ratio.is_nan() { 0.0 } else { ratio };
+                            undecided |= (ratio - ub[*ui]).abs() < 1e-7;
+                            if ratio > ub[*ui] {
+                                cur.swap(i, j);
+                            }
+                        }
+                        outcomes.insert(format!("{:?}", cur.iter().map(|c| (c.0.iter().flatten().collect::<Vec<_>>(), c.1.clone())).collect::<Vec<_>>()));
+                        let same = (0..nrep).all(|i| cur[i].0.iter().flatten().collect::<Vec<_>>() == after[i].0.iter().flatten().collect::<Vec<_>>() && cur[i].1 == after[i].1);
+                        if same || undecided {
+                            explained = true;
+                        }
+                    }
+                }
+                n_indep += 1;
+                if outcomes.len() > 1 {
+                    n_indep_nontrivial += 1;
+                }
+                if !explained {
+                    oracle_failures.push(json!({"prop": "C05,C10", "what": "the exchanges of one pairing phase are not separate Metropolis tests: with the container uniforms scripted to alternate between 2^-52 and 1-2^-52 no assignment of one drawn uniform per pair reproduces the decisions taken",
+                        "ladder": li, "replicas": nrep, "parallel": par, "betas": lad.betas, "gammas": lad.specs.iter().map(|s| s.gamma).collect::<Vec<_>>(),
+                        "hs": lad.specs.iter().map(|s| s.h).collect::<Vec<_>>(), "edges": lad.specs.iter().map(|s| s.edges.clone()).collect::<Vec<_>>(),
+                        "n_before": before.iter().map(|s| s.0.iter().flatten().count()).collect::<Vec<_>>(),
+                        "scripted_container_words": script.iter().map(|w| w.to_string()).collect::<Vec<_>>(),
+                        "n_after": after.iter().map(|s| s.0.iter().flatten().count()).collect::<Vec<_>>()}));
+                }
             }
         }
         // --- threshold probe on the first pair of a fresh 2- or 3-replica prefix of this ladder
@@ -363,7 +447,7 @@ pub fn run(args: &Args) -> serde_json::Value {
     oracle_failures.truncate(60);
     let files = crate::write_shards(&args.out, "C10", "C10", &coq, if args.thorough { 300 } else { 40 });
     json!({"files": files, "evaluations": coq.len(), "distinct_nontrivial": distinct.len() + n_probes, "tempering_steps": n_steps,
-        "accepted_exchanges": n_swaps, "generic_sampler_tempering_steps": n_gsteps, "generic_sampler_accepted_exchanges": n_gswaps, "threshold_probes": n_probes, "steps_with_unequal_cutoffs_before": n_unequal_cutoffs,
+        "accepted_exchanges": n_swaps, "generic_sampler_tempering_steps": n_gsteps, "generic_sampler_accepted_exchanges": n_gswaps, "threshold_probes": n_probes, "steps_with_unequal_cutoffs_before": n_unequal_cutoffs, "independence_probes": n_indep, "independence_probes_where_assignments_differ": n_indep_nontrivial,
         "ladder_sizes": hist_rep, "oracle_failures": oracle_failures, "samples": samples,
         "rule": "ladders of 2..8 Ising replicas on a shared random graph (beta ladders, Hamiltonian ladders |J|, Gamma, |h| scaled, both), unequal initial cutoffs, some with heat bath; after random numbers of time steps one serial or rayon tempering step is replayed on the container's raw words; on 2-replica ladders the uniform at which the exchange flips is bisected to the exact word; beta ladders of 2..5 GENERIC samplers (identical interactions) are stepped and their exchange decisions replayed with the same uniforms (oracle only)"})
 }
